@@ -1,4 +1,6 @@
 """C01-C05, C08-C10: properties decided on the builder state machine (PregexSpine)."""
+import itertools
+import random
 import time
 
 from . import universe as UV
@@ -8,45 +10,185 @@ ALL_OPS = {'concat', 'either', 'enclose', 'quant', 'group', 'anchor', 'look'}
 QUANTS_SMALL = {('Optional', 0, 1, True), ('Optional', 0, 1, False), ('Indefinite', 0, -1, True),
                 ('OneOrMore', 1, -1, False), ('Exactly', 2, 2, True), ('AtLeastAtMost', 1, 2, True),
                 ('AtLeast', 2, -1, False), ('AtMost', 0, 2, True), ('Mul', 3, 3, True)}
+QUANTS_TWO = {('Optional', 0, 1, True), ('OneOrMore', 1, -1, False)}
 SPINE_INVARIANTS = ['OkIsWF', 'OutcomeTotal', 'RepeatRule', 'LookbehindRule']
+SPINE_PROPS = ['EmptyNeutralStep', 'EmptyNegRaises']
 
 ASSUME = ['CPython re executes both the emitted pattern and the reference text (engine quirks cancel)',
           'text universes are bounded: all texts over the characters of the expression plus decoys up to length 3, '
-          'and over the expression characters alone up to length 4-5',
+          'and over the expression characters alone up to length 4-8',
           'expression shapes are bounded: spine trees of the stated depth over the stated pool',
           'TLA+ value parser (harness/tlaval.py) and surface-term interpreter (harness/build.py) are trusted']
 
 
-def spine_cfg(invariants=SPINE_INVARIANTS, props=('EmptyNeutralStep',)):
-    return 'SPECIFICATION Spec\n' + ''.join('INVARIANT %s\n' % i for i in invariants) + \
-        ''.join('PROPERTY %s\n' % p for p in props) + 'CHECK_DEADLOCK FALSE\n'
+def spine_cfg():
+    return 'SPECIFICATION Spec\n' + ''.join('INVARIANT %s\n' % i for i in SPINE_INVARIANTS) + \
+        ''.join('PROPERTY %s\n' % p for p in SPINE_PROPS) + 'CHECK_DEADLOCK FALSE\n'
 
 
-def spine_config(name, wins, maxd, opsel, poolsel, quants=QUANTS_SMALL, names=('n',), workers=8, timeout=3000):
+def spine_config(name, wins, maxd, opsel, poolsel, quants=QUANTS_SMALL, names=('n',), strs=(), workers=8,
+                 timeout=3000, params=None):
     return dict(name=name, module='PregexSpine', cfg=spine_cfg(), workers=workers, timeout=timeout,
-                invariants=SPINE_INVARIANTS + ['EmptyNeutralStep'],
+                invariants=SPINE_INVARIANTS + SPINE_PROPS, params=params or {},
                 defs={'Wins': set(tuple(w) for w in wins), 'MaxD': maxd, 'OpSel': set(opsel),
-                      'PoolSel': set(poolsel), 'Quants': set(quants), 'Names': set(names)})
+                      'PoolSel': set(poolsel), 'Quants': set(quants), 'Names': set(names),
+                      'Strs': set(tuple(x) for x in strs)})
 
 
 FULL_POOL = {'empty', 'class', 'token', 'wb', 'alt', 'cat', 'quant', 'group', 'assert', 'pregex'}
 
 
+# ----------------------------------------------------------------------------- C02
 def compose_configs(tier, seed):
     wins = UV.windows(tier, seed)
     if tier == 'quick':
         return [spine_config('depth1-fullpool', wins[:3], 1, ALL_OPS, FULL_POOL | {'focusall'}),
-                spine_config('depth2-leaves', wins[:1], 2, ALL_OPS - {'enclose'}, set(), quants={('Optional', 0, 1, True), ('OneOrMore', 1, -1, False)}, names=())]
-    return [spine_config('depth1-fullpool', wins, 1, ALL_OPS, FULL_POOL | {'focusall', 'lit3'}),
+                spine_config('depth2-leaves', wins[:1], 2, ALL_OPS - {'enclose'}, set(), quants=QUANTS_TWO, names=())]
+    return [spine_config('depth1-fullpool', wins, 1, ALL_OPS | {'cond'}, FULL_POOL | {'focusall', 'lit3'}),
             spine_config('depth2-fullpool', wins[:4], 2, ALL_OPS, FULL_POOL),
-            spine_config('depth3-leaves', wins[:2], 3, ALL_OPS, {'class'}, quants={('Optional', 0, 1, True), ('OneOrMore', 1, -1, False)})]
+            spine_config('depth3-leaves', wins[:2], 3, ALL_OPS - {'enclose'}, set(), quants=QUANTS_TWO, names=())]
 
 
-def generic(prop, facets, rule, configs_fn, args_tier=None, seeds=(0,), mode='rr', extra_assume=()):
+# ----------------------------------------------------------------------------- C01
+def strings(tier, seed):
+    """Strings for C01/C09: all single catalogue characters, all pairs with a metacharacter, seeded triples."""
+    rnd = random.Random(seed)
+    cat = UV.CATALOGUE
+    meta = UV.META + UV.INCLASS
+    out = [()] + [(c,) for c in cat]
+    pairs = [(a, b) for a in meta for b in meta] + [(a, b) for a in (97, 49, 10) for b in meta] + \
+            [(b, a) for a in (97, 49, 10) for b in meta]
+    if tier == 'quick':
+        rnd.shuffle(pairs)
+        core = [(92, 92), (36, 36), (92, 36), (97, 36), (36, 97), (91, 97), (97, 91), (92, 91), (92, 93), (40, 41),
+                (124, 124), (97, 124), (94, 97), (97, 94), (63, 63), (97, 63), (123, 125), (47, 47), (92, 110), (92, 49)]
+        out += core + [p for p in pairs if p not in core][:60]
+        ntr = 60
+    else:
+        out += sorted(set(pairs))
+        out += [(a, b) for a in cat for b in (97, 36, 92)]
+        ntr = 1500
+    core3 = [(97, 36, 98), (92, 92, 92), (97, 92, 36), (91, 97, 93), (40, 63, 58), (97, 124, 98), (123, 49, 125),
+             (97, 123, 50), (92, 40, 41), (36, 94, 36), (97, 10, 98), (91, 94, 93)]
+    out += core3
+    for _ in range(ntr):
+        out.append((rnd.choice(cat), rnd.choice(meta), rnd.choice(cat)))
+        out.append((rnd.choice(meta), rnd.choice(cat), rnd.choice(meta)))
+    return sorted(set(out))
+
+
+def literal_configs(tier, seed):
+    strs = strings(tier, seed)
+    wins = [(120, 121, 122)]
+    ops = ALL_OPS | {'cond'}
+    cfgs = [spine_config('positions-x-strings', wins, 1, ops, {'strs', 'pregexstrs', 'minpool'},
+                         quants=QUANTS_SMALL, strs=strs, params={'only_tags': None})]
+    return cfgs
+
+
+# ----------------------------------------------------------------------------- C04
+def quant_configs(tier, seed):
+    wins = UV.windows(tier, seed)
+    vals = [0, 1, 2, 3, -1, -2, -3, -4, -5]
+    quants = set()
+    for g in (True, False):
+        quants |= {('Optional', 0, 1, g), ('Indefinite', 0, -1, g), ('OneOrMore', 1, -1, g)}
+        for n in vals:
+            quants |= {('AtLeast', n, -1, g), ('AtMost', 0, n, g)}
+            for m in vals:
+                quants.add(('AtLeastAtMost', n, m, g))
+    for n in vals:
+        quants |= {('Exactly', n, n, True), ('Mul', n, n, True)}
+    pool = {'empty', 'class', 'alt', 'cat', 'quant', 'group', 'token', 'focusall', 'pregex'}
+    if tier == 'quick':
+        return [spine_config('quant-lattice', wins[:2], 1, {'quant'}, pool, quants=quants, params={'deep': True})]
+    return [spine_config('quant-lattice', wins[:12], 1, {'quant'}, pool | {'lit3', 'wb', 'assert'}, quants=quants, params={'deep': True}),
+            spine_config('quant-of-quant', wins[:3], 2, {'quant'}, {'class', 'alt'},
+                         quants={q for q in quants if q[1] >= -1 and q[2] >= -1 and q[1] <= 2 and q[2] <= 2}, params={'deep': True})]
+
+
+# ----------------------------------------------------------------------------- C05
+def empty_configs(tier, seed):
+    wins = UV.windows(tier, seed)
+    pool = {'empty', 'emptyforms', 'class', 'alt', 'quant', 'group', 'assert'}
+    if tier == 'quick':
+        return [spine_config('empty-depth1', wins[:2], 1, ALL_OPS | {'cond'}, pool | {'focusall'}),
+                spine_config('empty-depth2', wins[:1], 2, ALL_OPS - {'enclose', 'look'}, {'empty', 'emptyforms'}, quants=QUANTS_TWO, names=())]
+    return [spine_config('empty-depth1', wins[:10], 1, ALL_OPS | {'cond'}, pool | {'focusall', 'token', 'wb'}),
+            spine_config('empty-depth2', wins[:3], 2, ALL_OPS, {'empty', 'emptyforms', 'class'}, quants=QUANTS_TWO),
+            spine_config('empty-depth3', wins[:1], 3, ALL_OPS - {'enclose', 'look'}, {'empty', 'emptyforms'}, quants=QUANTS_TWO, names=())]
+
+
+# ----------------------------------------------------------------------------- C08
+def group_configs(tier, seed):
+    wins = UV.windows(tier, seed)
+    pool = {'parens', 'looks', 'refs', 'alt', 'quant', 'group', 'focusall', 'minpool'}
+    if tier == 'quick':
+        return [spine_config('group-nesting-3', wins[:2], 3, {'group'}, pool, names=('n', 'm')),
+                spine_config('group-in-context', wins[:1], 2, {'group', 'concat', 'either', 'quant'}, {'group', 'alt', 'focusall'}, quants=QUANTS_TWO, names=('n', 'm'))]
+    return [spine_config('group-nesting-4', wins[:6], 4, {'group'}, pool, names=('n', 'm')),
+            spine_config('group-in-context', wins[:3], 3, {'group', 'concat', 'either', 'quant'}, {'group', 'alt', 'focusall'}, quants=QUANTS_TWO, names=('n', 'm'))]
+
+
+# ----------------------------------------------------------------------------- C09
+def repeat_configs(tier, seed):
+    wins = UV.windows(tier, seed)
+    strs = strings(tier, seed)
+    quants = {('Optional', 0, 1, True), ('Indefinite', 0, -1, True), ('OneOrMore', 1, -1, False), ('Exactly', 0, 0, True),
+              ('Exactly', 1, 1, True), ('Exactly', 2, 2, True), ('AtLeast', 0, -1, True), ('AtLeast', 2, -1, False),
+              ('AtMost', 0, 1, True), ('AtMost', 0, 2, True), ('AtMost', 0, -1, True), ('AtLeastAtMost', 0, 1, True),
+              ('AtLeastAtMost', 1, 2, True), ('AtLeastAtMost', 1, -1, False), ('AtLeastAtMost', 1, 1, True),
+              ('Mul', 0, 0, True), ('Mul', 1, 1, True), ('Mul', 2, 2, True)}
+    cfgs = [spine_config('quantify-literals', [(120, 121, 122)], 1, {'quant'}, {'strs', 'pregexstrs', 'minpool'},
+                         quants=quants, strs=strs),
+            spine_config('quantify-assertions', wins[:1] if tier == 'quick' else wins[:8], 2,
+                         {'quant', 'anchor', 'look', 'group', 'either'} if tier == 'quick' else ALL_OPS,
+                         {'empty', 'wb'} if tier == 'quick' else {'empty', 'class', 'wb', 'alt', 'token'},
+                         quants={q for q in quants if q[0] in ('Optional', 'OneOrMore', 'Exactly', 'Mul', 'AtMost')} if tier == 'quick' else quants)]
+    return cfgs
+
+
+# ----------------------------------------------------------------------------- C10
+def width_configs(tier, seed):
+    wins = [(97, 63, 42), (97, 43, 123), (97, 125, 44)] + UV.windows(tier, seed)
+    quants = {('Optional', 0, 1, True), ('Indefinite', 0, -1, False), ('Exactly', 2, 2, True), ('AtLeastAtMost', 1, 2, True),
+              ('AtLeastAtMost', 2, 2, True), ('AtMost', 0, 2, True), ('AtLeast', 1, -1, True), ('Mul', 3, 3, True)}
+    pool = {'class', 'alt', 'quant', 'group', 'assert', 'token', 'wb', 'empty'}
+    if tier == 'quick':
+        return [spine_config('lookbehind-depth2', wins[:2], 2, {'look', 'quant', 'either', 'concat', 'group'}, {'class'}, quants=quants, names=()),
+                spine_config('lookbehind-pool', wins[:3], 1, {'look'}, pool | {'focusall', 'lit3'}, quants=quants)]
+    return [spine_config('lookbehind-depth2', wins[:8], 2, ALL_OPS, {'class', 'alt', 'empty'}, quants=quants, names=()),
+            spine_config('lookbehind-pool', wins, 1, {'look'}, pool | {'focusall', 'lit3'}, quants=quants),
+            spine_config('lookbehind-depth3', wins[:2], 3, {'look', 'quant', 'either', 'concat'}, {'class'}, quants=QUANTS_TWO | {('Exactly', 2, 2, True)}, names=())]
+
+
+# ----------------------------------------------------------------------------- C03 (builder part)
+def total_configs(tier, seed):
+    wins = UV.windows(tier, seed)
+    vals = [0, 1, 2, -1, -2, -3, -4, -5]
+    quants = {('Optional', 0, 1, True), ('Indefinite', 0, -1, False), ('OneOrMore', 1, -1, True)}
+    for n in vals:
+        quants |= {('Exactly', n, n, True), ('Mul', n, n, True), ('AtLeast', n, -1, True), ('AtMost', 0, n, False)}
+        for m in (1, 2, -1, -2, -3):
+            quants.add(('AtLeastAtMost', n, m, True))
+    ops = ALL_OPS | {'cond', 'badnames'}
+    pool = FULL_POOL | {'bad', 'focusall', 'parens', 'looks', 'refs'}
+    if tier == 'quick':
+        return [spine_config('argspace-depth1', wins[:3], 1, ops, pool, quants=quants),
+                spine_config('trees-depth2', wins[:1], 2, ALL_OPS - {'enclose'}, {'bad'}, quants=QUANTS_TWO, names=())]
+    return [spine_config('argspace-depth1', wins, 1, ops, pool | {'lit3'}, quants=quants),
+            spine_config('trees-depth2', wins[:4], 2, ops, FULL_POOL | {'bad'}, quants=QUANTS_SMALL),
+            spine_config('trees-depth3', wins[:2], 3, ALL_OPS - {'enclose'}, {'bad'}, quants=QUANTS_TWO, names=())]
+
+
+def generic(prop, facets, rule, configs_fn, args_tier=None, seeds=(0,), mode='rr', extra_assume=(), params=None):
     tier, seed = tier_and_seed(args_tier)
     t0 = time.time()
-    res = run_generated(configs_fn(tier, seed), 'harness.judge_compose.judge',
-                        {'prop': prop, 'facets': sorted(facets)}, seeds=seeds, mode=mode)
+    p = {'prop': prop, 'facets': sorted(facets)}
+    p.update(params or {})
+    if callable(seeds):
+        seeds = seeds(tier, seed)
+    res = run_generated(configs_fn(tier, seed), 'harness.judge_compose.judge', p, seeds=seeds, mode=mode)
     st = res.agg.stats
     cov = {'states': res.states, 'transitions': res.transitions,
            'traces_validated_against_impl': st.get('cases', 0),
@@ -60,11 +202,64 @@ def generic(prop, facets, rule, configs_fn, args_tier=None, seeds=(0,), mode='rr
                   res.model_violations)
 
 
+RULE = 'every distinct state of the builder state machine (one surface term with its intended outcome) is replayed ' \
+       'against /repo in every spelling of its top operator; '
+
+
+def check_C01(tier=None):
+    return generic('C01', {'behaviour', 'compile', 'crash', 'exc', 'accepted'},
+                   RULE + 'terms place a str argument in every position of every operator that accepts str; non-trivial = '
+                   'the step used a str argument', literal_configs, tier)
+
+
 def check_C02(tier=None):
     return generic('C02', {'behaviour', 'compile', 'crash'},
-                   'every distinct state of the spine machine (one surface term) replayed in every spelling of its top '
-                   'operator; non-trivial = accepted value with >= 2 operator nodes and a precedence-sensitive parent/child pair',
+                   RULE + 'non-trivial = accepted value with >= 2 operator nodes and a precedence-sensitive parent/child pair',
                    compose_configs, tier)
 
 
-CHECKS = {'C02': check_C02}
+def hash_seeds(tier, seed):
+    return [0, 1, 2, seed % (2 ** 32)] if tier == 'quick' else list(range(16))
+
+
+def check_C03b(tier=None):
+    return generic('C03', {'crash', 'compile', 'export'},
+                   RULE + 'argument space includes the documented ways of being invalid; non-trivial = any builder call',
+                   total_configs, tier, seeds=lambda t, s: sorted(set(hash_seeds(t, s)))[:4] if t == 'quick' else [0, 1, 2, 3, 4, 5, 6, 7],
+                   mode='rr')
+
+
+def check_C04(tier=None):
+    return generic('C04', {'behaviour', 'compile', 'crash', 'exc', 'accepted'},
+                   RULE + 'operands x bound pairs (valid, None, negative, bool, float, str) x greediness x class/method/operator '
+                   'spellings; non-trivial = a quantifier call', quant_configs, tier)
+
+
+def check_C05(tier=None):
+    return generic('C05', {'behaviour', 'compile', 'crash', 'exc', 'accepted', 'emptytext'},
+                   RULE + 'pool operands are the empty forms; non-trivial = a step with an empty operand or an empty result',
+                   empty_configs, tier)
+
+
+def check_C08(tier=None):
+    return generic('C08', {'caps', 'behaviour', 'compile', 'crash'},
+                   RULE + 'nestings of Capture/Group around literals that look like group syntax, lookarounds, conditionals, '
+                   'back-references; non-trivial = value with a capture and >= 2 operator nodes', group_configs, tier)
+
+
+def check_C09(tier=None):
+    return generic('C09', {'exc', 'accepted'},
+                   RULE + 'quantifiers over every literal string of the catalogue and over every assertion constructor; '
+                   'only CannotBeRepeatedException outcomes are judged; non-trivial = a quantifier call',
+                   repeat_configs, tier, params={'only_ex': 'CannotBeRepeatedException'})
+
+
+def check_C10(tier=None):
+    return generic('C10', {'exc', 'accepted', 'compile'},
+                   RULE + 'lookbehind constructors over assertion patterns of every width shape; only '
+                   'NonFixedWidthPatternException outcomes and compilability are judged; non-trivial = a lookbehind call',
+                   width_configs, tier, params={'only_ex': 'NonFixedWidthPatternException'})
+
+
+CHECKS = {'C01': check_C01, 'C02': check_C02, 'C04': check_C04, 'C05': check_C05,
+          'C08': check_C08, 'C09': check_C09, 'C10': check_C10}
